@@ -58,7 +58,10 @@ class C08(Prop):
     # Remote / OnceTask / FutureTask / RepeatTask, regenerated from the compiler-expanded source on every run
     tie_modules = {"RxModel.GenTie.Scheduler": [],
                    # interval / interval_at / timer / timer_at: what `actual_subscribe` schedules, the tick and task functions
-                   "RxModel.GenTie.TimeSources": []}
+                   "RxModel.GenTie.TimeSources": [],
+                   # transcription pins (DESIGN II.7, weakest tie): the token text of the hand-transcribed files is the one the model was made from
+                   "RxModel.GenTie.PinsAsync": [],
+    }
     rule = ("interval / interval_at / timer / timer_at sources (optionally followed by synchronous operators and "
             "take) on the virtual clock: (a) prompt schedules: clock advanced in single steps, executor run after "
             "each; (b) jumps over several periods, fire/poll in arbitrary order, late executors. Full line "
